@@ -17,8 +17,13 @@ def load_corpus_scripts(prop):
     if os.path.isdir(d):
         for fn in sorted(os.listdir(d)):
             if fn.endswith(".sim"):
-                lines = [l.rstrip("\n") for l in open(os.path.join(d, fn)) if l.strip() and not l.startswith("#")]
-                out.append((fn, lines))
+                raw = [l.rstrip("\n") for l in open(os.path.join(d, fn))]
+                lines = [l for l in raw if l.strip() and not l.startswith("#")]
+                sf = None
+                for l in raw:
+                    if l.startswith("# settle_from="):
+                        sf = int(l.split("=")[1])
+                out.append((fn, lines, sf))
     return out
 
 
@@ -84,7 +89,7 @@ def sim_conclude(rep, prop, proofs_ok, oracle_fail, diverged, model_name):
     if oracle_fail:
         f = oracle_fail[0]
         rep.violation("oracle", dict(what="implementation violates %s on a concrete script" % prop, problem=f["problem"], script=f.get("shrunk", f["script"]),
-                                     original_script=f["script"] if "shrunk" in f else None,
+                                     original_script=f["script"] if "shrunk" in f else None, settle_from=f.get("shrunk_settle_from"),
                                      replay_cmd=".cache/target/debug/sim < script-lines"), True)
     elif diverged:
         f = diverged[0]
@@ -101,9 +106,9 @@ def sim_collect(rep, prop, tier, rng, seed, gen_kwargs_list, n_quick, n_thorough
     oracle_props = oracle_props or {prop}
     n = n_quick if tier == "quick" else n_thorough
     batch, metas, names = [], [], []
-    for fn, lines in load_corpus_scripts(prop):
+    for fn, lines, sf0 in load_corpus_scripts(prop):
         batch.append(lines)
-        metas.append(dict(settle_from=None, corpus=fn))
+        metas.append(dict(settle_from=sf0, corpus=fn))
         names.append(fn)
     if custom_scripts:
         for name, lines, settle_from in custom_scripts(rng, tier):
@@ -159,7 +164,9 @@ def sim_collect(rep, prop, tier, rng, seed, gen_kwargs_list, n_quick, n_thorough
                 steps, impl = r_[0], r_.raw
                 tr = simoracle.Trace(steps, impl)
                 return any(p["prop"] in oracle_props for p in tr.run(settle_from=len(b)))
-            f["shrunk"] = ddmin(body, fails_with_tail) + tail
+            shrunk_body = ddmin(body, fails_with_tail)
+            f["shrunk"] = shrunk_body + tail
+            f["shrunk_settle_from"] = len(shrunk_body)
 
     def diverges(lines):
         steps, impl, model = run_batch([lines])[0]
